@@ -25,6 +25,17 @@ HDR = "LHAFileHeader"
 SLASH, BSLASH = 0x2f, 0x5c
 
 
+LIBC_WRITERS = {"memmove", "memcpy", "memset", "strcpy", "strncpy", "strcat", "strncat", "sprintf", "snprintf", "vsprintf", "vsnprintf", "stpcpy", "mempcpy", "bcopy"}
+
+
+def _libc_writer(name):
+    if not name:
+        return False
+    if name.startswith("llvm.mem"):
+        return True
+    return name.lstrip("_").replace("_chk", "") in LIBC_WRITERS or name in LIBC_WRITERS
+
+
 def byte_store_functions(mod, cg, fields):
     """functions that store single bytes through a pointer loaded from one of the header fields,
     directly or through a parameter that receives such a pointer"""
@@ -33,9 +44,13 @@ def byte_store_functions(mod, cg, fields):
     for fn in mod.defined():
         M = Matcher(fn)
         for st in fn.insts():
-            if st.op != "store" or st.size != 1:
+            if st.op == "call" and st.ops and _libc_writer(mod.callee_cname(st)):
+                dst = st.ops[0]          # a libc routine that writes through its first argument counts as a byte store there
+            elif st.op == "store" and st.size == 1:
+                dst = st.ops[1]
+            else:
                 continue
-            r = root(fn, st.ops[1])
+            r = root(fn, dst)
             if r[0] == "load":
                 ld = fn.vals[r[1]]
                 for f in fields:
@@ -265,6 +280,9 @@ def run(tier, seed):
                             continue
                         rep.check(rid2, not hit, "call %s after the sanitiser cannot write the path" % mod.callee_cname(ins), ins.where(),
                                   "reaches path writers %s" % sorted(hit) if hit else None, function=rd.cname, obj=mod.callee_cname(ins))
+                    if any(ins is w for w in direct.get((rd.name, "path"), [])):
+                        rep.violation(rid2, "bytes of header->path written after the sanitiser", ins.where(), "a store (or libc writer) through the path pointer runs after collapse_path: "
+                                      "whatever it leaves in the path is returned unsanitised", function=rd.cname, obj="path-bytes")
                     if ins.op == "store" and (ins in stores_to_field(mod, HDR, "path", [rd])):
                         rep.violation(rid2, "store to header->path after the sanitiser", ins.where(), "direct store", function=rd.cname, obj="path-store")
             # the header is returned by no other function of the library without passing here: lha_file_header_read is the only producer
